@@ -15,7 +15,7 @@ META = dict(
     technique="exhaustive enumeration of crystals x orientations x energies x excitation-error / g limits x thickness lists x evaluation modes; conservation laws and a two-path differential oracle",
     text="For 6 crystals (all centerings), 4 orientations, 2 energies, 3 sg_max, 2 g_max, 3 thickness specifications, lazy and eager and both "
          "Bloch-wave equations the real BlochWaves calculation is run and checked for unit total intensity, the zero-thickness limit, lazy/eager "
-         "agreement, a Hermitian structure matrix and agreement between the matrix-exponential and eigen-decomposition paths.",
+         "agreement, a Hermitian structure matrix and agreement between the matrix-exponential and eigen-decomposition paths. Six lazy results are evaluated together in every one of their 57 subsets (one dask.compute call) and compared with their own eager results.",
     note="Bound: <= ~700 beams. Tolerance 1e-6 on the conserved flux sum I_g/M_g^2 and on expm-vs-eigh; the plain sum of intensities is allowed to deviate from 1 by max|M_g^2 - 1| (the HOLZ correction factors, ~1e-3 off the zone axis, 0 for ZOLZ beams).",
 )
 TOL = 1e-6  # expm path vs eigen-decomposition path
